@@ -405,6 +405,7 @@ func runC03(c *report.Ctx) {
 	ruleBranchCacheComplete(c)
 	ruleEngineFlagsPerInput(c)
 	ruleCryptoKeySealing(c)
+	ruleUnlockFlagFollowsHash(c)
 	ruleSignErrorReturned(c)
 }
 
